@@ -193,7 +193,7 @@ impl FlowSource for MemTableSource {
                 .map_err(|e| FlowOperatorError::Batch(format!("failed to build schema: {}", e)))?,
         );
 
-        let evaluator = ConditionEvaluatorBuilder::build_from_plan(&self.config.plan);
+        let evaluator = ConditionEvaluatorBuilder::build_for_events(&self.config.plan);
         let query_ctx = QueryContext::from_command(&self.config.plan.command);
         let limit = self.determine_limit(&query_ctx);
 
